@@ -17,6 +17,7 @@ def Just (inp : RunInput) (s : Sys) (u : Name) : Prop :=
 
 structure InvE (inp : RunInput) (s : Sys) : Prop where
   ie : ∀ d, stOf s d = .ign → Ev.skipIgn d ∈ s.events
+  ig : ∀ d, Ev.skipIgn d ∈ s.events → stOf s d = .ign
   just : ∀ u, ((∃ k, Ev.failure u k ∈ s.events) ∨ Ev.skipIgn u ∈ s.events) → Just inp s u
 
 theorem Just.mono {inp : RunInput} {s s' : Sys} {u : Name} (hm : ∀ e ∈ s.events, e ∈ s'.events)
@@ -39,7 +40,7 @@ theorem evSt_of {inp : RunInput} {s : Sys} (hF : InvF inp s) (hE : InvE inp s) (
   · exact Or.inl ((h2.g d).1 hst)
 
 theorem init_invE (inp : RunInput) : InvE inp (init inp) :=
-  ⟨fun d h => by simp [init, stOf] at h, fun u h => by simp [init] at h⟩
+  ⟨fun d h => by simp [init, stOf] at h, fun d h => by simp [init] at h, fun u h => by simp [init] at h⟩
 
 theorem quiet_not_ign {new : List Ev} (hq : ∀ e ∈ new, e.quiet = true) (n : Name) : Ev.skipIgn n ∉ new :=
   fun h => by have := hq _ h; simp [Ev.quiet] at this
@@ -114,7 +115,11 @@ theorem invE_step {inp : RunInput} {s s' : Sys} (h : InvE inp s) (hU : InvU inp 
   | quiet new hst hev hq hstop =>
     have hm : ∀ e ∈ s.events, e ∈ s'.events := fun e he => by rw [hev]; exact List.mem_append.mpr (Or.inr he)
     obtain ⟨q1, _, _⟩ := quiet_not hq
-    refine ⟨fun d hd => hm _ (h.ie d (by rw [← hst]; exact hd)), fun u hu => ?_⟩
+    refine ⟨fun d hd => hm _ (h.ie d (by rw [← hst]; exact hd)), fun d hd => ?_, fun u hu => ?_⟩
+    · rw [hev] at hd; rw [hst]
+      rcases List.mem_append.mp hd with b | b
+      · exact absurd b (quiet_not_ign hq d)
+      · exact h.ig d b
     refine (h.just u ?_).mono hm (fun x _ => hst x)
     rw [hev] at hu
     rcases hu with ⟨k, a⟩ | a
@@ -147,6 +152,15 @@ theorem invE_step {inp : RunInput} {s s' : Sys} (h : InvE inp s) (hU : InvU inp 
         exact List.mem_append.mpr (Or.inr (List.mem_append.mpr (Or.inl (by simp [selEvents]))))
       · simp only [e, if_false] at hdi
         exact hm _ (h.ie d hdi)
+    · intro d hdi
+      rw [hev] at hdi
+      rcases List.mem_append.mp hdi with b | b
+      · exact absurd b (quiet_not_ign hq d)
+      · rcases List.mem_append.mp b with b | b
+        · obtain ⟨e1, e2⟩ := selEvents_ign b
+          subst e1; rw [hst]; simp [e2, selStatus]
+        · have := h.ig d b
+          rw [keep d (by rw [this]; rfl)]; exact this
     · intro u hu
       rw [hev] at hu
       have old : ((∃ k, Ev.failure u k ∈ s.events) ∨ Ev.skipIgn u ∈ s.events) → Just inp s' u :=
@@ -184,6 +198,14 @@ theorem invE_step {inp : RunInput} {s s' : Sys} (h : InvE inp s) (hU : InvU inp 
         cases ho : inp.outcome d <;> rw [ho] at hdi <;> simp [resStatus] at hdi
       · simp only [e, if_false] at hdi
         exact hm _ (h.ie d hdi)
+    · intro d hdi
+      rw [hev] at hdi
+      rcases List.mem_append.mp hdi with b | b
+      · cases ho : inp.outcome m <;> rw [ho] at b <;> simp [resEvents] at b
+      · rcases List.mem_append.mp b with b | b
+        · exact absurd b (quiet_not_ign hq d)
+        · have := h.ig d b
+          rw [keep d (by rw [this]; rfl)]; exact this
     · intro u hu
       rw [hev] at hu
       have old : ((∃ k, Ev.failure u k ∈ s.events) ∨ Ev.skipIgn u ∈ s.events) → Just inp s' u :=
